@@ -168,6 +168,9 @@ def plans(draw, nodes, links, origins, dests):
     for d in dests:
         ops.append(["dest", d["id"]])
     ops = list(draw(st.permutations(ops)))
+    # interleave reads / steps of the partially built network (histories: build, use, extend, use)
+    for _ in range(draw(st.sampled_from([0, 0, 1, 2]))):
+        ops.insert(draw(st.integers(0, len(ops))), [draw(st.sampled_from(["read", "trystep"]))])
     # a path op attaches origin/dest itself; a later explicit op re-attaches the same object (no-op)
     if draw(st.booleans()):
         pre = list(draw(st.permutations([n["id"] for n in nodes])))
@@ -308,3 +311,40 @@ def fix_singular(draw, spec, stt):
     # a first-density fix can touch a last segment of a single-segment link only upwards, so the
     # merge fix above stays valid; re-check for safety (harness assertion, not a filter)
     assert not S.singular(spec, stt)
+
+
+@st.composite
+def distinct_states(draw, spec):
+    """Moderate, pairwise distinct values for every entry (per element and per segment), so that a
+    permutation of elements or segments cannot hide behind equal numbers."""
+    entries = []
+    for l in spec["links"]:
+        entries += [(l["id"], "rho", k, 0.05 * l["rho_crit"], 1.5 * l["rho_crit"]) for k in range(l["N"])]
+        entries += [(l["id"], "v", k, 0.2 * l["v_free"], 1.1 * l["v_free"]) for k in range(l["N"])]
+        if l.get("vsl") is not None:
+            entries += [(l["id"], "v_ctrl", k, 20.0, 140.0) for k in range(len(l["vsl"]))]
+    for o in spec["origins"]:
+        k = o["kind"]
+        if k == "ideal":
+            continue
+        entries += [(o["id"], "w", 0, 1.0, 200.0), (o["id"], "d", 0, 100.0, 3000.0)]
+        if k == "main":
+            entries.append((o["id"], "v_ctrl", 0, 20.0, 140.0))
+        elif k.startswith("ramp"):
+            entries.append((o["id"], "r", 0, 0.05, 1.0))
+        else:
+            entries.append((o["id"], "q", 0, 100.0, 2500.0))
+    for d in spec["dests"]:
+        if d["kind"] == "cong":
+            entries.append((d["id"], "d", 0, 5.0, 80.0))
+    n = len(entries)
+    perm = list(draw(st.permutations(range(n))))
+    jitter = draw(st.floats(0.0, 0.999))
+    stt = {}
+    for j, (i, var, k, lo, hi) in enumerate(entries):
+        val = lo + (hi - lo) * (0.02 + 0.96 * (perm[j] + jitter) / n)
+        stt.setdefault(i, {}).setdefault(var, []).append(val)
+    for l in spec["links"]:
+        if l.get("vsl") is not None and not l["vsl"]:
+            stt[l["id"]]["v_ctrl"] = []
+    return stt
